@@ -72,6 +72,10 @@ thread_local! {
     static SNAP: RefCell<Snap> = RefCell::new(Snap::default());
 }
 
+fn raw_sid(sid: &SubstreamId) -> usize {
+    format!("{sid:?}").chars().filter(|c| c.is_ascii_digit()).collect::<String>().parse().unwrap_or(usize::MAX)
+}
+
 fn pidx(peer: &PeerId) -> String {
     peer_index(peer).map_or_else(|| "?".to_string(), |i| i.to_string())
 }
@@ -234,6 +238,7 @@ struct Inner {
     rx_log_rx: UnboundedReceiver<(usize, String)>,
     /// Effects collected during the current operation.
     effects: Vec<String>,
+    rx_effects: Vec<(usize, String)>,
     /// All terminal events so far, `(query, kind)`.
     ledger: Vec<(usize, String)>,
     started: Vec<(usize, String)>,
@@ -281,9 +286,11 @@ async fn remote_task(
         None => "EOF".to_string(),
         Some(bytes) => match KademliaMessage::from_bytes(BytesMut::from(&bytes[..]), 20) {
             Some(KademliaMessage::FindNode { .. }) => "FIND_NODE".to_string(),
-            Some(KademliaMessage::PutValue { .. }) => "PUT_VALUE".to_string(),
+            Some(KademliaMessage::PutValue { record }) =>
+                format!("PUT_VALUE:{}", record.key.to_vec().first().copied().unwrap_or(0)),
             Some(KademliaMessage::GetRecord { .. }) => "GET_VALUE".to_string(),
-            Some(KademliaMessage::AddProvider { .. }) => "ADD_PROVIDER".to_string(),
+            Some(KademliaMessage::AddProvider { key, .. }) =>
+                format!("ADD_PROVIDER:{}", key.to_vec().first().copied().unwrap_or(0)),
             Some(KademliaMessage::GetProviders { .. }) => "GET_PROVIDERS".to_string(),
             None => "UNDECODABLE".to_string(),
         },
@@ -394,6 +401,7 @@ impl Inner {
             rx_log_tx,
             rx_log_rx,
             effects: Vec::new(),
+            rx_effects: Vec::new(),
             ledger: Vec::new(),
             started: Vec::new(),
         }
@@ -413,9 +421,12 @@ impl Inner {
         }
         while let Ok((csid, kind)) = self.rx_log_rx.try_recv() {
             if let Some(remote) = self.remotes.get_mut(&csid) {
-                remote.request = Some(kind.clone());
+                remote.request = Some(kind.split(':').next().unwrap_or("").to_string());
+                if kind == "EOF" {
+                    remote.finished = true;
+                }
             }
-            self.effects.push(format!("rx:{csid}:{kind}"));
+            self.rx_effects.push((csid, format!("rx:{csid}:{kind}")));
         }
         while let Some(Some(event)) = self.handle.next().now_or_never() {
             let terminal = match &event {
@@ -459,6 +470,7 @@ impl Inner {
             }
         }
         let peers: Vec<u64> = self.conns.keys().copied().collect();
+        let mut opened = Vec::new();
         for p in peers {
             let conn = self.conns.get_mut(&p).expect("connection");
             let conn_id = conn.id;
@@ -470,21 +482,28 @@ impl Inner {
                     ..
                 } = cmd
                 {
-                    let csid = self.sid_map.len();
-                    self.sid_map.insert(substream_id, csid);
-                    self.opening.push(Opening {
-                        csid,
-                        raw: substream_id,
-                        peer: p,
-                        permit,
-                        conn: conn_id,
-                    });
-                    tail.push(format!("open:{p}:{csid}"));
+                    opened.push((raw_sid(&substream_id), substream_id, p, permit, conn_id));
                 }
             }
         }
+        // canonical substream ids: order of the `open_substream` calls
+        opened.sort_by_key(|o| o.0);
+        for (_, substream_id, p, permit, conn_id) in opened {
+            let csid = self.sid_map.len();
+            self.sid_map.insert(substream_id, csid);
+            self.opening.push(Opening {
+                csid,
+                raw: substream_id,
+                peer: p,
+                permit,
+                conn: conn_id,
+            });
+            tail.push(format!("open:{p}:{csid}"));
+        }
         let mut tokens: Vec<String> = TRACE.with(|t| t.borrow_mut().drain(..).collect());
         tokens.extend(tail);
+        self.rx_effects.sort();
+        tokens.extend(self.rx_effects.drain(..).map(|(_, t)| t));
         tokens.append(&mut self.effects);
         let state = SNAP.with(|s| self.format_state(&s.borrow()));
         format!("{} # {}", tokens.join(" "), state)
@@ -610,13 +629,7 @@ impl Inner {
             return false;
         };
         mgr::set_view(&self.mgr_peers, peer(p), View::Disconnected);
-        // every substream of the connection dies with it
         self.opening.retain(|o| o.peer != p);
-        for remote in self.remotes.values_mut().filter(|r| r.peer == p) {
-            remote.cmd_tx = None;
-            remote.cmd_rx = None;
-            remote.finished = true;
-        }
         let _ = self
             .service_tx
             .send(InnerTransportEvent::ConnectionClosed {
@@ -624,6 +637,14 @@ impl Inner {
                 connection: conn.id,
             })
             .await;
+        self.quiesce().await;
+        // every substream of the connection dies with it (after the coordinator handled the event,
+        // so that the order of the two is the same in every run)
+        for remote in self.remotes.values_mut().filter(|r| r.peer == p) {
+            remote.cmd_tx = None;
+            remote.cmd_rx = None;
+            remote.finished = true;
+        }
         true
     }
 
@@ -722,7 +743,7 @@ impl Inner {
             .collect()
     }
 
-    fn reply(&mut self, k: usize, nodes: &[u64], with_value: bool, garbage: bool) -> Option<usize> {
+    fn reply(&mut self, k: usize, nodes: &[u64], with_value: bool, garbage: &str) -> Option<usize> {
         let waiting = self.waiting();
         if waiting.is_empty() {
             return None;
@@ -731,8 +752,17 @@ impl Inner {
         let peers: Vec<KademliaPeer> = nodes.iter().filter(|i| **i >= 1).map(|i| self.kad_peer(*i)).collect();
         let remote = self.remotes.get_mut(&csid)?;
         let key = RecordKey::from(vec![1u8]);
-        let bytes: Vec<u8> = if garbage {
+        let bytes: Vec<u8> = if garbage == "garbage" {
             vec![0xff, 0xff, 0xff, 0xff]
+        } else if garbage == "addprov" {
+            KademliaMessage::add_provider(
+                key.clone(),
+                ContentProvider {
+                    peer: peer(remote.peer),
+                    addresses: Vec::new(),
+                },
+            )
+            .to_vec()
         } else {
             match remote.request.as_deref() {
                 Some("FIND_NODE") => KademliaMessage::find_node_response(&key, peers),
@@ -880,14 +910,14 @@ impl Inner {
             ["reply", k, rest @ ..] => {
                 let mut nodes = Vec::new();
                 let mut value = false;
-                let mut garbage = false;
+                let mut garbage = "";
                 for arg in rest {
                     if let Some(list) = arg.strip_prefix("nodes=") {
                         nodes = Self::peers_arg(list)?;
                     } else if *arg == "value" {
                         value = true;
-                    } else if *arg == "garbage" {
-                        garbage = true;
+                    } else if *arg == "garbage" || *arg == "addprov" {
+                        garbage = *arg;
                     } else {
                         return None;
                     }
@@ -923,11 +953,18 @@ impl Inner {
             let waited: Vec<PeerId> = SNAP.with(|s| s.borrow().dials.iter().map(|(p, _)| *p).collect());
             let dialing: Vec<u64> = (1..=MAX_PEER)
                 .filter(|p| {
-                    !self.conns.contains_key(p)
-                        && (mgr::is_dialing(&self.mgr_peers, &peer(*p)) || waited.contains(&peer(*p)))
+                    waited.contains(&peer(*p))
+                        || (!self.conns.contains_key(p) && mgr::is_dialing(&self.mgr_peers, &peer(*p)))
                 })
                 .collect();
             for p in dialing {
+                if self.conns.contains_key(&p) {
+                    let line = format!("closed {p}");
+                    let t: Vec<&str> = line.split_whitespace().collect();
+                    if let Some(out) = self.primitive(&t).await {
+                        parts.push(format!("{line} -> {out}"));
+                    }
+                }
                 let line = format!("dialfail {p}");
                 let t: Vec<&str> = line.split_whitespace().collect();
                 if let Some(out) = self.primitive(&t).await {
